@@ -121,6 +121,14 @@ def gen_cases(run, tier):
     cases.append(Case('wide-5000', wl.gen_wide(nwide), reps=1))
     cases.append(Case('wide-5000-slow-consumer', wl.gen_wide(nwide, n_dirs=20, per_dir=3), slow=(500, 2000), threads=[1, 4, 16]))
     cases.append(Case('wide-dirs', wl.gen_wide(10, n_dirs=400 if quick else 1500, per_dir=3), threads=[1, 2, 16] if quick else THREADS))
+    # many sibling DIRECTORIES: every sub-folder of a listed directory is one pending job of the job queue, so these
+    # shapes hold thousands of directory jobs at the same moment (6000 below one folder; 80 folders x 80 sub-folders,
+    # all 6400 inner ones pending once the outer level is listed).  1 thread is what every unix build really uses:
+    # the worker that pushes the jobs is then also the only one that pops them.  (seeded change C17-a)
+    cases.append(Case('many-dirs-6000', wl.gen_many_dirs(6000, file_every=10, top_files=5), threads=[1, 4, 16] if quick else THREADS))
+    cases.append(Case('dir-grid-80x80', wl.gen_dir_grid(80, 80, leaf_file_every=16), threads=[1, 2, 16] if quick else THREADS))
+    cases.append(Case('many-dirs-6000-doer', wl.gen_many_dirs(6000), mode='G', threads=[1] if quick else [1, 4]))
+    cases.append(Case('many-dirs-5000-slow-consumer', wl.gen_many_dirs(5000), slow=(500, 2000), threads=[1, 4]))
     cases.append(Case('deep-200', wl.gen_deep(200)))
     cases.append(Case('wide-5000-doer', wl.gen_wide(nwide, n_dirs=5, per_dir=2), mode='G', threads=[1, 4] if quick else THREADS))
     cases.append(Case('deep-200-doer', wl.gen_deep(200), mode='G', threads=[1, 16] if quick else THREADS))
@@ -139,6 +147,8 @@ def gen_cases(run, tier):
     if not quick:
         cases.append(Case('wide-20000', wl.gen_wide(20000, n_dirs=50, per_dir=10), slow=(1000, 500)))
         cases.append(Case('deep-400', wl.gen_deep(400)))
+        cases.append(Case('many-dirs-20000', wl.gen_many_dirs(20000, file_every=7), threads=[1, 2, 16]))
+        cases.append(Case('dir-grid-150x150', wl.gen_dir_grid(150, 150), threads=[1, 4]))
         for i in range(40):
             cases.append(Case('wide-dirs-rep', wl.gen_wide(5, n_dirs=300, per_dir=4), threads=[4, 16], reps=3))
     return cases
@@ -172,7 +182,7 @@ def setup(run):
     run.assumptions = ['the directory tree does not change while it is walked (read_dir snapshot semantics under concurrent modification are out of scope)',
                        'an unreadable directory is obtained without a hook as a directory whose path is >= PATH_MAX bytes (ENAMETOOLONG), a missing root or a root that is a file']
     run.extra['rule'] = ('hand-written shapes (empty, excluded folders with content, links and loops, fifo, filter failure, missing root, 5000 and 20000 entries in one '
-                         'directory with fast/slow consumer, hundreds of directories, depth 200/400, unreadable directory alone and next to busy workers) and random trees over a '
+                         'directory with fast/slow consumer, hundreds of directories, 6000 (20000) sibling folders and 80x80 (150x150) nested folders = thousands of pending directory jobs, depth 200/400, unreadable directory alone and next to busy workers) and random trees over a '
                          '12-name alphabet; each with 1,2,4,16 walker threads through parallel_walk_dir directly (W) or the real doer handle_get_entries (G); a case is '
                          'non-trivial when the expected listing is non-empty or an error is expected; distinct by kind+mode+threads+tree tokens')
     binary = vlib.build_impl()
